@@ -43,6 +43,9 @@ LIBRARY = [
     ['def make_acc(n):', '    a = Acc()', '    a.add(n)', '    return a'],
     ['def use_acc(a):', "    return type(a).__name__ + ':' + ','.join([str(a.total + 1), 'y']) + ':' + str(isinstance(a, Acc))"],
     ['class Grumpy:', '    def __init__(self):', '        self.mood = 3', '    def __repr__(self):', "        raise ValueError('no repr today')"],
+    ['class Card:', '    def __init__(self, rank):', '        self.rank = rank', '    def __repr__(self):', '        return str(self.rank)'],
+    ['def make_card(n):', '    return Card(n)'],
+    ['def use_card(c):', '    return c.rank + 1'],
     ['def make_grumpy():', '    return Grumpy()'],
     ['def use_grumpy(g):', '    return g.mood + 1'],
 ]
@@ -53,10 +56,11 @@ LIB_FUNCS = {
     'chatty': ['small'], 'noeol': ['str'], 'blank': [], 'swallow': ['int0'], 'writer': ['str'],
     'size': ['seq'], 'ident': ['any'], 'mutate': ['list'], 'tick': [], 'kw': ['int'], 'init_state': ['int'], 'read_state': [],
     'biggest': ['int', 'int'], 'add_ten': ['int'], 'cached_sq': ['small'], 'acc_add': ['int'],
-    'make_acc': ['int'], 'ask_alias': ['prompt'],
+    'make_acc': ['int'], 'ask_alias': ['prompt'], 'make_card': ['int'],
 }
 # (consumer, producer): the consumer is called with what an earlier call of the producer returned
-RESULT_CHAINS = [('use_acc', 'make_acc'), ('use_grumpy', 'make_grumpy'), ('ident', 'make_acc'), ('size', 'mutate')]
+RESULT_CHAINS = [('use_acc', 'make_acc'), ('use_grumpy', 'make_grumpy'), ('ident', 'make_acc'), ('size', 'mutate'),
+                 ('use_card', 'make_card')]      # an object whose repr reads like a number
 
 
 EXOTIC = ("float('inf')", "float('nan')", "[float('-inf')]")
